@@ -51,6 +51,9 @@ CHECKS["C17"] = dict(cat="model_checking", tech="exhaustive enumeration of all o
 CHECKS["C07"] = dict(cat="exploration", tech="exhaustive enumeration of compu-method configurations (8 categories x type pairs x coefficient/limit/interval menus, 1..4 scales) x every value of 8-bit internal domains + boundary sets, compared with exact rational arithmetic (fractions.Fraction)",
    text="8 k (quick) / 32 k (thorough) compu methods are emitted as ODX, loaded through the real loader and every conversion / validity predicate is compared with an exact three-valued reference: forward and inverse formulas with nearest-integer rounding, OPEN/CLOSED/INFINITE limits, validity of images, refusal outside the range, round trip x->p->x on injective methods, encodability of monotone continuous piecewise-linear methods.",
    note="Trusted: odxmodel/refcompu.py. Exact rounding ties, float comparisons below 1e-9 relative, overlapping TEXTTABLE ranges and one-sided numeric scales are DON'T-CARE.", ref="5/C07")
+CHECKS["C15"] = dict(cat="model_checking", tech="exhaustive enumeration of layer hierarchies (all connected DAGs over the five layer types up to 3/4 layers) x all placements of simple/complex comparam instances with/without protocol qualifier and omitted (sub-)values; reference resolution model",
+   text="For every hierarchy and every placement vector the databases are emitted as ODX, loaded through the real loader, and comparam_refs, get_comparam (name x protocol incl. Protocol objects), get_value/get_subvalue and 13 typed accessors are compared on every layer with the reference: closest layer wins per (parameter, protocol), protocol-specific before generic, defaults of the specification as fallback, numeric content of the typed accessors.",
+   note="Trusted: odxmodel/refcomparam.py. A generic instance in a strictly closer layer versus a protocol-specific one farther away is DON'T-CARE; unrelated parents offering different instances: any offered one is accepted.", ref="5/C15")
 NOT_BUILT_REASON = "check not built yet in this revision of /verif (design in DESIGN.md section 5); not claimed"
 
 def main():
